@@ -206,6 +206,32 @@ func TestVerif_C09(t *testing.T) {
 					}
 				}
 			}
+			// where the legacy rule does NOT apply (other networks, or after the activation): a certificate over the
+			// larger key vector from before the operation window is stale and must not be accepted
+			if _, legacy := h.refLegacyTs(ts); !legacy && ts > h.Epoch {
+				if hr := h.hourOf(ts); hr >= 13 && hr <= 19 {
+					lts := ts - uint64(hr+1-13)*uint64(time.Hour)
+					lids, lpubs := chain.ConsensusKeys(round, lts)
+					lthr := node.ConsensusThreshold(lts, true)
+					if len(lids) > len(cids) && lthr <= len(lids) {
+						r.Count("stale_pre_window_key_vector_timestamps", 1)
+						for _, n := range []int{lthr, len(lids)} {
+							pos := rng.Perm(len(lids))[:n]
+							sort.Ints(pos)
+							s := *base
+							sig, err := vC09Cosi(h, s.Hash, lids, lpubs, pos)
+							if err != nil {
+								r.Count("signing_errors", 1)
+								continue
+							}
+							s.Signature = sig
+							c.snap = &s
+							c.label = fmt.Sprintf("stale-%d-of-%d-current-%d-thr-%d", n, len(lids), len(cids), thr)
+							vC09Judge(r, c, node, fresh(), "stale-pre-window-key-set", &accepted, &rejected)
+						}
+					}
+				}
+			}
 			// honest certificates
 			for _, n := range []int{thr, thr - 1, thr + rng.Intn(len(cids)-thr+1)} {
 				if n < 1 {
